@@ -12,6 +12,7 @@ import vxlib
 # (unit, file, regex, replacement, what it breaks)
 MUTATIONS = {
     'C15': [
+        ('tls', 'tonic/src/request.rs', r'\.and_then\(\|i\| i\.peer_certs\(\)\)', '.and_then(|_i| None)', 'Request::peer_certs never finds the certificates'),
         ('tls', 'tonic/src/transport/channel/service/connector.rs', r'let is_https = uri\.scheme_str\(\) == Some\("https"\);', 'let is_https = tls.is_some() && uri.scheme_str() == Some("https");', 'TLS is used only when a TLS configuration happens to be present'),
         ('tls', 'tonic/src/transport/channel/service/tls.rs', r'if !\(alpn_protocol == Some\(ALPN_H2\) \|\| self\.assume_http2\) \{', 'if !(alpn_protocol == Some(ALPN_H2) || !self.assume_http2) {', 'the http2 opt-out is read the wrong way round'),
         ('tls', 'tonic/src/transport/channel/service/tls.rs', r'let mut roots = RootCertStore::from_iter\(trust_anchors\);', 'let mut roots = RootCertStore::empty(); let _ = trust_anchors;', 'configured trust anchors are dropped'),
